@@ -85,6 +85,11 @@ def strip_stats(payload, drop=("invalidated",)):
 
 
 def compare(impl, model, channels=("api", "read", "ev", "snap", "heap", "stats", "audit"), ev_as_multiset=False):
+    if "ev-propagation" in channels:
+        # fault injection: WHICH handlers had run when the k-th one panics depends on HashMap order
+        impl = [l for l in impl if " ev notif " not in l]
+        model = [l for l in model if " ev notif " not in l]
+        channels = tuple("ev" if c == "ev-propagation" else c for c in channels)
     """Returns a list of (channel, action index, impl payload, model payload) for the first difference
     of each requested channel."""
     ic, mc = split_channels(impl), split_channels(model)
